@@ -435,6 +435,26 @@ pub fn run(args: &Args) -> i32 {
                             hung_calls += 1;
                         }
                     }
+                    // variant: the last two rows made equal (two large primes that always occur together) and present in
+                    // a few columns, on row counts that are not a multiple of the block size: B*Y then has a component
+                    // that lives only in the rows of the last, partial block of 64
+                    if mat.nrows % 64 >= 2 && hung_calls < 2 {
+                        let mut m2 = Mat { nrows: mat.nrows, cols: mat.cols.clone() };
+                        let (r1, r2) = (mat.nrows - 2, mat.nrows - 1);
+                        let nc = m2.cols.len();
+                        let picks: Vec<usize> = (0..5).map(|_| rng.gen_range(0..nc)).collect();
+                        for (j, c) in m2.cols.iter_mut().enumerate() {
+                            let has = c.contains(&r2) ^ picks.contains(&j);
+                            c.retain(|&x| x != r1 && x != r2);
+                            if has {
+                                c.push(r1);
+                                c.push(r2);
+                            }
+                        }
+                        if lanczos_event(&mut out, &format!("lanczos/{}/tailpair", i), sh, &m2, 0, deadline) {
+                            hung_calls += 1;
+                        }
+                    }
                     for rep in 0..reps {
                         if hung_calls >= 2 {
                             skipped += 1;
